@@ -8,6 +8,7 @@ import (
 	"bytes"
 	"context"
 	"encoding/binary"
+	"errors"
 	"fmt"
 	"io"
 	"log/slog"
@@ -115,6 +116,11 @@ func newConnScn(rng *RNG, q int) *connScn {
 		return s
 	}
 	s.v.SetAuto(false)
+	if rng.Intn(3) == 0 {
+		// a connection whose Close tears it down and still reports an error (a TLS connection whose
+		// peer is gone does)
+		s.v.closeErr = errors.New("vconn: failed to send close notify (but connection was closed anyway)")
+	}
 	s.regs = []hrpc.RegionInfo{
 		region.NewInfo(1, nil, []byte("t"), []byte("t,,1.aaaaaaaaaaaaaaaaaaaaaaaaaaaaaaaa."), nil, []byte("m")),
 		region.NewInfo(2, nil, []byte("t"), []byte("t,m,2.bbbbbbbbbbbbbbbbbbbbbbbbbbbbbbbb."), []byte("m"), nil),
@@ -236,6 +242,10 @@ func (s *connScn) buildFrame(w *wireInfo, kind string) ([]byte, string) {
 	h := &pb.ResponseHeader{CallId: &id}
 	switch kind {
 	case "badhdr":
+		if s.rng.Bool() {
+			// a well-formed delimiter whose bytes are not a ResponseHeader
+			return []byte{0, 0, 0, 3, 0x02, 0xff, 0xff}, "badhdr"
+		}
 		return []byte{0, 0, 0, 3, 0x0a, 0x7f, 0x01}, "badhdr" // header length runs past the frame
 	case "undec":
 		// valid header, response part does not decode
@@ -403,6 +413,14 @@ func (s *connScn) newCall(direct, app bool) *connCall {
 		c.call = g
 	}
 	c.call.SetRegion(s.regs[idx%2])
+	if s.profile != "" && s.rng.Intn(8) == 0 {
+		// the call's region was replaced in the location cache (split, merge) after the call was
+		// routed: the connection still owes the call an answer
+		r := s.regs[idx%2]
+		dead := region.NewInfo(r.ID(), r.Namespace(), r.Table(), r.Name(), r.StartKey(), r.StopKey())
+		dead.MarkDead()
+		c.call.SetRegion(dead)
+	}
 	s.calls = append(s.calls, c)
 	s.rowIdx[string(row)] = idx
 	return c
@@ -804,7 +822,13 @@ func (s *connScn) run(nSteps, maxCalls int, profile string) {
 				// a call may be handed over with its context already done (direct calls only: the
 				// select in QueueBatch would be a coin toss)
 				pre := ""
-				if direct && s.rng.Intn(8) == 0 && !region.VerifIsDone(s.rc) {
+				writerBusy := false
+				for _, g := range pend {
+					if g.kind == "write" && s.gidWho[g.gid] == "W" {
+						writerBusy = true // the batching goroutine is inside conn.Write: QueueBatch cannot hand over
+					}
+				}
+				if (direct || (writerBusy && !bunsendable)) && !closing && s.rng.Intn(8) == 0 && !region.VerifIsDone(s.rc) {
 					c.cancel()
 					c.cancelled = true
 					pre = fmt.Sprintf("cx:%d/%s ", c.idx, s.observe())
@@ -1328,6 +1352,9 @@ func init() {
 	}
 	c02conn := connProp("c02", "corr")
 	props["C02"] = func(tier string, seed uint64, out *Out) {
+		if os.Getenv("VERIF_SHARD") == "" {
+			runBatchProp("C02", tier, seed, out)
+		}
 		c02conn(tier, seed, out)
 		// free-running parallel senders (true parallelism; the gated scenarios run one goroutine at
 		// a time): the call ids on the connection must be unique, or responses cannot be correlated
@@ -1338,6 +1365,20 @@ func init() {
 			}
 			for i := 0; i < n; i++ {
 				out.Line("%s", strings.Replace(c05Stress(NewRNG(seed, fmt.Sprintf("c02s-%d", i)), i), "c05 ", "c02s ", 1))
+			}
+			// what a caller was handed stays its own answer while answers to other callers arrive on
+			// the same connection (compressed responses included; c15alias.go)
+			na := 4
+			if tier != "quick" {
+				na = 40
+			}
+			for i := 0; i < na; i++ {
+				cd := c15codecs()[i%2]
+				codec := cd.codec
+				if cd.name != "snappy" {
+					codec = mockCodec{1000}
+				}
+				out.Line("%s", c15AliasScenario(NewRNG(seed, fmt.Sprintf("c02alias-%d", i)), strings.SplitN(cd.name, ":", 2)[0], codec))
 			}
 		}
 	}
